@@ -1,6 +1,6 @@
 """Bounded stand-in for C13's index clauses: index.update() (hash carried over by metadata) and index.md5().
 
-History: build + md5 an index of a workspace; mutate files (rewrite, same-size rewrite, touch, atomic replace, delete,
+History: build + md5 an index of a workspace; mutate files (rewrite, same-size rewrite, touch, atomic replace, in-place append with the mtime put back, delete,
 re-create, add); build a fresh index; update(new, old); md5(new).
 Oracle: (A) every hash that update() carried over equals the md5 of the file's CURRENT bytes; (B) after md5() every file
 entry present carries the md5 of its current bytes.  Timer resolution is taken out of the picture: every write moves the
@@ -37,7 +37,7 @@ def put(p, data, clock):
 def mutate(rng, ws, clock):
     name = rng.choice(NAMES + ["new1", "d/new2"])
     p = os.path.join(ws, name)
-    kind = rng.choice(["rewrite", "same_size", "touch", "replace", "replace_keep_mtime", "delete", "recreate"])
+    kind = rng.choice(["rewrite", "same_size", "touch", "replace", "replace_keep_mtime", "delete", "recreate", "append_keep_mtime", "append_keep_mtime"])
     old = open(p, "rb").read() if os.path.isfile(p) else None
     if old is None:
         put(p, os.urandom(rng.randint(1, 9)), clock)
@@ -67,6 +67,11 @@ def mutate(rng, ws, clock):
             clock[0] += 1
             os.utime(p, (clock[0], clock[0]))
         SEEN_INODES[p].update((st.st_ino, os.stat(p).st_ino))
+    elif kind == "append_keep_mtime":  # in-place append (same inode, other size) with the old mtime put back (rsync -t / cp -p style)
+        st = os.stat(p)
+        with open(p, "ab") as f:
+            f.write(b"+appended")
+        os.utime(p, ns=(st.st_atime_ns, st.st_mtime_ns))
     elif kind == "delete":
         os.unlink(p)
     else:
@@ -123,7 +128,7 @@ def main():
             failures.append({"problems": [f"raised {type(e).__name__}: {str(e)[:120]}"]})
         evals += 1
     print(json.dumps({"evaluations": evals, "distinct_nontrivial": evals, "n_failures": len(failures), "failures": failures[:4],
-                      "bound": f"{n} seeded histories: <= 5 files in <= 3 levels, <= 5 mutations of 8 kinds (incl. same-size same-mtime atomic replacement) between the old and the new index"}))
+                      "bound": f"{n} seeded histories: <= 5 files in <= 3 levels, <= 5 mutations of 9 kinds (incl. same-size same-mtime atomic replacement, in-place append with the old mtime put back) between the old and the new index"}))
 
 
 if __name__ == "__main__":
